@@ -77,6 +77,8 @@ def run(rep):
                        "sign of a negative duration is not printed (the statement speaks of the magnitude)", "TLC 1.8.0"]
     r = tlc_must_pass("MC_Duration", "MC_Duration" if quick else "MC_Duration_thorough", workers=8, timeout=1500)
     rep.add_tlc("MC_Duration", r)
+    import apalache
+    apalache.prove(rep, ['DurLemma'] if quick else ['DurLemma'])
     g = tlc("Gen_Duration", "Gen_Duration" if quick else "Gen_Duration_thorough", workers=8, timeout=1200)
     if not g.ok:
         raise ToolError("Gen_Duration failed: %s" % (g.violated or g.error))
